@@ -255,6 +255,24 @@ def writeRes (len seed : Nat) (mode : String) (impl : String) : Res :=
     | none => some ("unparsable implementation output")
   { model := renderWrite o, monitor := mon, prop := "C14" }
 
+/-- The buffered write path (`bufferedConn`, TCPMux `WriteBufferSize > 0`) drains the queue through a buffer of
+receiveMTU + 2 bytes: a packet longer than the receive MTU (outside what C14 promises to deliver) is reported as
+written and then DROPPED by the drain.  The model says so; the monitor tolerates the drop but not a partial frame:
+whatever reaches the connection must be the whole, correct frame. -/
+def writeResBuffered (len seed : Nat) (impl : String) : Res :=
+  if len ≤ 8192 ∨ len > 65535 then writeRes len seed "tpcb" impl
+  else
+    let p := genBytes seed len
+    -- a frame (header + packet) above 65535 bytes is refused by the queue (packetio.Buffer) itself
+    let dropped : WriteObs :=
+      if len + 2 > 65535 then { n := 0, err := some WErr.tooLong, writes := 0, hdr := [], bodyLen := 0, bodyDig := digest [] }
+      else { n := len, err := none, writes := 0, hdr := [], bodyLen := 0, bodyDig := digest [] }
+    let mon := firstSome (panicMon impl) <|
+      match parseWrite impl with
+      | some io => if io.writes == 0 then none else writeViolation false p io
+      | none => some ("unparsable implementation output")
+    { model := renderWrite dropped, monitor := mon, prop := "C14" }
+
 def capOf (s : String) : Option Nat :=
   match s.splitOn ":" with
   | [_, c] => c.toNat?
@@ -266,7 +284,8 @@ def line (toks : List String) (impl : String) : Res :=
   | ["write", len, seed, mode] =>
     match len.toNat?, seed.toNat? with
     | some len, some seed =>
-      if mode == "ok" || mode == "fail" || mode == "tpc" || mode == "tpcb" then writeRes len seed mode impl else bad "frame write: mode"
+      if mode == "tpcb" then writeResBuffered len seed impl
+      else if mode == "ok" || mode == "fail" || mode == "tpc" then writeRes len seed mode impl else bad "frame write: mode"
     | _, _ => bad "frame write: args"
   | ["read", cap, en, hex] =>
     match capOf cap, parseEnd en, segsOfHex hex with
